@@ -2590,9 +2590,9 @@ func c13Gen(r *Rand, tier string) []interface{} {
 		extra = append(extra, c13GenAfter(r))
 	}
 	// the header block reader: one responder output under two framings (generated last)
-	nh := 160
+	nh := 120
 	if tier == "thorough" {
-		nh = 1600
+		nh = 1200
 	}
 	for i := 0; i < nh; i++ {
 		extra = append(extra, c13GenHead(r, i))
